@@ -154,6 +154,8 @@ def gen_history(rng, hid, maxlen=6):
         n = rng.choice([1, 2, 3, 5, 6])
         o = {"op": kind, "frame": gen_frame(rng, pcols, n, nid, sub_pool(rng, kpool), sub_pool(rng, jpool), null_cols, kind == "append"), "offsets": offsets(rng, n)}
         nid += n
+        if rng.random() < 0.4:
+            o["perm"] = rng.randrange(1 << 30)       # append / overwrite / write_row_groups frames with permuted columns (mixed dtypes: int64, float64, keys)
         if rng.random() < 0.2:
             o["y_int"] = True      # the new frame's y column is int64: the part files must still carry the summary's schema (y: double)
         if kind == "writergs":
@@ -327,7 +329,7 @@ def model_ops(h, resolved):
 # ---------------------------------------------------------------------------------------------
 # the real code (worker process)
 # ---------------------------------------------------------------------------------------------
-def to_df(frame, pcols, ptypes=None, y_int=False):
+def to_df(frame, pcols, ptypes=None, y_int=False, perm=None):
     import numpy as np
     import pandas as pd
     pt = ptypes or DEFAULT_PTYPES
@@ -348,7 +350,16 @@ def to_df(frame, pcols, ptypes=None, y_int=False):
             d[c] = pd.Series([pd.NaT if v is None else pd.Timestamp(v) for v in vals])
         else:
             d[c] = pd.Series(vals, dtype=object)
-    return pd.DataFrame(d)
+    df = pd.DataFrame(d)
+    if perm is not None and len(df.columns) > 1:
+        # the same columns listed in ANOTHER order (schema-compatible: columns are matched by name)
+        import random
+        order = list(df.columns)
+        r_ = random.Random(perm)
+        while order == list(df.columns):
+            r_.shuffle(order)
+        df = df[order]
+    return df
 
 
 def sort_key_fn(name):
@@ -421,6 +432,9 @@ def observe(root, key_cols=()):
                 obs["keys"] = {c: [norm_key(k, v) for v in kdf[c].astype(object).tolist()] for c, k in key_cols}
                 obs["key_ids"] = [int(v) for v in kdf["x"].tolist()]
             obs["read"] = [int(v) for v in pf.to_pandas(columns=["x"])["x"].tolist()] if pf.row_groups else []
+            if pf.row_groups:
+                ydf = pf.to_pandas(columns=["x", "y"])
+                obs["y"] = [[int(a), float(b)] for a, b in zip(ydf["x"].tolist(), ydf["y"].tolist())]
         except BaseException as e:               # noqa
             obs["read"] = None
             obs["read_error"] = "%s: %s" % (type(e).__name__, str(e)[:120])
@@ -443,11 +457,11 @@ def run_history(arg):
             sel = None
             try:
                 if o["op"] == "write":
-                    write(root, to_df(o["frame"], pcols, h.get("ptypes"), o.get("y_int", False)), file_scheme="hive", partition_on=list(pcols), row_group_offsets=list(o["offsets"]), **okw)
+                    write(root, to_df(o["frame"], pcols, h.get("ptypes"), o.get("y_int", False), o.get("perm")), file_scheme="hive", partition_on=list(pcols), row_group_offsets=list(o["offsets"]), **okw)
                 elif o["op"] == "append":
-                    write(root, to_df(o["frame"], pcols, h.get("ptypes"), o.get("y_int", False)), file_scheme="hive", partition_on=list(pcols), row_group_offsets=list(o["offsets"]), append=True, **okw)
+                    write(root, to_df(o["frame"], pcols, h.get("ptypes"), o.get("y_int", False), o.get("perm")), file_scheme="hive", partition_on=list(pcols), row_group_offsets=list(o["offsets"]), append=True, **okw)
                 elif o["op"] == "overwrite":
-                    write(root, to_df(o["frame"], pcols, h.get("ptypes"), o.get("y_int", False)), file_scheme="hive", partition_on=list(pcols), row_group_offsets=list(o["offsets"]),
+                    write(root, to_df(o["frame"], pcols, h.get("ptypes"), o.get("y_int", False), o.get("perm")), file_scheme="hive", partition_on=list(pcols), row_group_offsets=list(o["offsets"]),
                           append="overwrite", **okw)
                 elif o["op"] == "remove":
                     if h.get("one_handle") and handle is None:
@@ -479,7 +493,7 @@ def run_history(arg):
                         if handle.row_groups:
                             handle.to_pandas(columns=["x"])
                     pf = handle or ParquetFile(root, **okw)
-                    pf.write_row_groups(to_df(o["frame"], pcols, h.get("ptypes"), o.get("y_int", False)), list(o["offsets"]), sort_key=sort_key_fn(o["sort_key"]),
+                    pf.write_row_groups(to_df(o["frame"], pcols, h.get("ptypes"), o.get("y_int", False), o.get("perm")), list(o["offsets"]), sort_key=sort_key_fn(o["sort_key"]),
                                         sort_pnames=o["sort_pnames"], **okw)
             except BaseException as e:           # noqa
                 raised = "%s: %s" % (type(e).__name__, str(e)[:160].replace("\n", " "))
@@ -566,6 +580,15 @@ def oracle_more(h, si, obs):
                 problems.append(("partition-value-differs", "row x=%d was written with %s=%r and is read back with %r (%d such rows)" % (
                     bad[0][0], c, bad[0][2], bad[0][1], len(bad))))
                 break
+    if obs.get("y"):
+        # content per COLUMN: the value column of every row as it was written (an int64 y frame is stored in the summary's double column)
+        wy = {}
+        for oo in h["ops"][:si + 1]:
+            for r in oo.get("frame", []):
+                wy[r["x"]] = float(int(r["y"] * 2)) if oo.get("y_int") else float(r["y"])
+        bad = [(i, g, wy[i]) for i, g in obs["y"] if i in wy and g != wy[i]]
+        if bad:
+            problems.append(("column-value-differs", "row x=%d was written with y=%r and is read back with y=%r (%d such rows)" % (bad[0][0], bad[0][2], bad[0][1], len(bad))))
     return problems
 
 
